@@ -566,6 +566,21 @@ func runCase(c Case, known func(string) bool) *h.Outcome {
 					continue
 				}
 			}
+			if old.tx.State.Version > atReg.State.Version && !refutedBeforeRelease {
+				// the adversary registered a ledger-channel state the honest party did not have
+				// yet (H's own proposal, accepted by M but the acceptance held back) together
+				// with an old sub-channel state: the watcher's refutation carries H's older
+				// ledger state and the adjudicator refuses it as a whole.  Once the acceptance
+				// arrives H has the newer ledger state, but nothing registers again: the same
+				// missing mechanism as F25.
+				sig := "not-refuted:parent-ahead-of-honest:" + during
+				if known(sig) {
+					o.Known = append(o.Known, h.Failf(sig, "sub-channel %s: v%d registered, newest v%d; adversary registered ledger v%d while the honest party had v%d", sim.Describe(lk.ID), sr.Reg.State.Version, ns.State.Version, old.tx.State.Version, atReg.State.Version))
+					newestSub = *sr.Reg2Tx()
+					continue
+				}
+				return fail(sig, "sub-channel %s: v%d is registered, the honest party's newest agreed state is v%d; the adversary registered ledger channel v%d, which the honest party (at v%d) did not have yet, so its refutation was refused", sim.Describe(lk.ID), sr.Reg.State.Version, ns.State.Version, old.tx.State.Version, atReg.State.Version)
+			}
 			kind := "not-refuted:sub-channel:"
 			if refutedBeforeRelease {
 				kind = "not-refuted:late-events:sub:"
